@@ -24,6 +24,8 @@ import Jamm.Gen.Layout
 import Jamm.Proofs.EncodeLemmas
 import Jamm.Model.EncodeWrites
 import Jamm.Proofs.EncodeMetaLemmas
+import Jamm.Proofs.CommitPagesLemmas
+import Jamm.Proofs.FreelistCover
 set_option linter.unusedSectionVars false
 open Std
 
@@ -67,11 +69,12 @@ example : wfb (K := Nat) (E := Nat) none none
 /-- commit keeps the tree invariant (separators bound their subtrees, uniform depth, no routing gap); a
 tree with the invariant and no childless branch is well-formed, so its contents are strictly ascending -/
 theorem commit_keeps_tree_wellformed (pagesize hdr leafHdr branchHdr bmSize : Nat)
-    (steps : List RbStep) (t : Tree Bytes Ent) (h : TreeInv t)
-    (hne : nebT (commitTree Gen.params pagesize hdr leafHdr branchHdr bmSize steps t) = true) :
-    WF none none (commitTree Gen.params pagesize hdr leafHdr branchHdr bmSize steps t) ∧
-    Spec.Sorted (commitTree Gen.params pagesize hdr leafHdr branchHdr bmSize steps t).flatten := by
-  have hi := commitTree_inv Gen.params pagesize hdr leafHdr branchHdr bmSize (by decide) (by decide) steps t h
+    (steps : List RbStep) (touched : List Bytes) (t : Tree Bytes Ent) (h : TreeInv t)
+    (hne : nebT (commitTree Gen.params pagesize hdr leafHdr branchHdr bmSize steps touched t) = true) :
+    WF none none (commitTree Gen.params pagesize hdr leafHdr branchHdr bmSize steps touched t) ∧
+    Spec.Sorted (commitTree Gen.params pagesize hdr leafHdr branchHdr bmSize steps touched t).flatten := by
+  have hi := commitTree_inv Gen.params pagesize hdr leafHdr branchHdr bmSize (by decide) (by decide) steps
+    touched t h
   have hw := wfs_wf none none _ hi.sep hne
   exact ⟨hw, (flatten_sorted none none _ hw).1⟩
 
@@ -128,5 +131,50 @@ theorem freelist_page_roundtrip (pagesize pid overflow : Nat) (ids : List Nat) (
     decodePage Gen.layout (writeFreelistPage Gen.layout pagesize pid overflow ids s) pagesize pid =
       .ok { id := pid, overflow := overflow, count := ids.length, body := .freelist ids } :=
   decode_writeFreelistPage Gen.layout (by decide) pagesize pid overflow ids s hfile hfit hhdr hid hrun hv
+
+/-! ### pages: what one bucket's commit does to them (Layer C → Layer A).  `treeRuns` = every page, with
+its overflow run, of every stored node of a tree; the run of a node is what `TxFreelist::allocate` computes for
+`Node::size`.  The run checks on every commit that the pages the real commit gave up are exactly
+`commitFreed` summed over the buckets the transaction changed (plus all pages of deleted buckets), and that
+it took exactly as many new pages as `treeRequests` says. -/
+
+/-- every stored page of the committed tree was a stored page of the overlay: commit never points at a page
+it does not own and never keeps a node it rewrote — every list of rebalance steps, every touched key -/
+theorem commit_keeps_only_overlay_pages (pagesize : Nat) (steps : List RbStep) (touched : List Bytes)
+    (pre : Tree Bytes Ent) :
+    ∀ q ∈ treeRuns Gen.layout pagesize (commitTree Gen.params pagesize Gen.layout.pageSize Gen.layout.leafSize
+        Gen.layout.branchSize Gen.layout.bmSize steps touched pre),
+      q ∈ treeRuns Gen.layout pagesize pre :=
+  commitTree_runs_sub Gen.layout pagesize Gen.params Gen.layout.pageSize Gen.layout.leafSize Gen.layout.branchSize
+    Gen.layout.bmSize steps touched pre
+
+/-- the overlay's pages split exactly into those the committed tree keeps and those the commit frees; the
+freed ones are pages of the overlay (the release protocol's client condition), none twice -/
+theorem commit_pages_split (pagesize : Nat) (steps : List RbStep) (touched : List Bytes) (pre : Tree Bytes Ent) (q : Nat) :
+    let post := commitTree Gen.params pagesize Gen.layout.pageSize Gen.layout.leafSize Gen.layout.branchSize
+        Gen.layout.bmSize steps touched pre
+    q ∈ treeRuns Gen.layout pagesize pre ↔
+      (q ∈ treeRuns Gen.layout pagesize post ∨ q ∈ commitFreed Gen.layout pagesize pre post) :=
+  commit_pages_partition Gen.layout pagesize Gen.params Gen.layout.pageSize Gen.layout.leafSize Gen.layout.branchSize
+    Gen.layout.bmSize steps touched pre q
+
+theorem freed_pages_distinct (pagesize : Nat) (pre post : Tree Bytes Ent)
+    (h : (treeRuns Gen.layout pagesize pre).Nodup) : (commitFreed Gen.layout pagesize pre post).Nodup :=
+  commitFreed_nodup Gen.layout pagesize pre post h
+
+/-- every run the commit requests is non-empty -/
+theorem requests_nonempty (pagesize : Nat) (hps : 0 < pagesize) (t : Tree Bytes Ent) :
+    ∀ n ∈ treeRequests Gen.layout pagesize t, 0 < n :=
+  treeRequests_pos Gen.layout pagesize hps (by decide) t
+
+/-- "never two of these and never none" at the level of the release protocol: for every history of writers
+that free only pages of the snapshot they started from (which the three theorems above say of the commit
+model) each page below the high-water mark is in exactly one of reachable / free / pending -/
+theorem accounting_exact_along_histories (s : Sys) (evs : List Ev) (s' : Sys) (hi : s.invB = true) (hcov : s.Covers)
+    (h : s.runEvs evs = some s') (p : Nat) (h2 : 2 ≤ p) (hp : p < s'.numPages) :
+    (p ∈ s'.cur.reach ∧ p ∉ s'.shared.free ∧ p ∉ s'.shared.pendingPages) ∨
+    (p ∉ s'.cur.reach ∧ p ∈ s'.shared.free ∧ p ∉ s'.shared.pendingPages) ∨
+    (p ∉ s'.cur.reach ∧ p ∉ s'.shared.free ∧ p ∈ s'.shared.pendingPages) :=
+  exactly_one s' (inv_run s evs s' hi h) (covers_run s evs s' hi hcov h) p h2 hp
 
 end Jamm.Props.C05
